@@ -36,6 +36,30 @@ class Proof:
     self.functions[ex.path] = ex
     return ex
 
+  def extract_class(self, relpath, clsname, loops=None, contracted=()):
+    """ClassModel with *every* method of the class in /repo (so that a helper
+    method introduced by a refactor is found and inlined).  `contracted` names
+    are registered as functions under contract; the others are inlined callees."""
+    import ast as _ast
+    from .extract import find
+    node, _ = find(relpath, clsname)
+    methods = {}
+    for n in node.body:
+      if isinstance(n, _ast.FunctionDef):
+        ex = Extracted(relpath, f'{clsname}.{n.name}')
+        if n.name in contracted:
+          self.functions[ex.path] = ex
+        fv = ex.funcv(loops=(loops or {}).get(n.name))
+        decs = [_ast.unparse(d) for d in n.decorator_list]
+        if 'staticmethod' in decs:
+          fv = StaticMethodV(fv)
+        elif 'property' in decs:
+          fv = PropertyV(fv)
+        elif any(d.startswith('abc.') for d in decs):
+          continue
+        methods[n.name] = fv
+    return ClassModel(clsname, methods)
+
   def trust(self, *items):
     for i in items:
       if i not in self.trusted:
